@@ -139,6 +139,10 @@ def obligations(tier):
            ['RP66V1.IndexXML.xml_rle_write', 'common.Rle.create_rle', 'util.XmlWrite.Element'], harness='C18_xml', func='rle_entries_small', timeout=170 if q else 600),
         Ob('rle_index_entries_expand', 'ch', 'integer sequences of length 1..4 over -3..3 (decimal) and ascending non-negative positions (hex)',
            ['RP66V1.IndexXML.xml_rle_write', 'common.Rle.create_rle', 'util.XmlWrite.Element'], harness='C18_xml', func='rle_entries', timeout=2400, tiers=('thorough',), parts=7),
+        Ob('document_file_with_declared_encoding', 'ch', 'XmlStream opened on a path with declared encoding utf-8 / latin-1 / ascii / cp1252; attribute and text from 8 strings '
+           '(ASCII, Latin-1 letters, superscript, Greek, CJK, markup characters); parsed back from the file by expat',
+           ['util.XmlWrite.XmlStream.__init__/__enter__/_encode/characters/startElement', 'XmlWrite.Element'], harness='C18_xml', func='xml_file_declared_encoding',
+           timeout=170 if q else 600, unblock=True, stubs=['scratch file (the stream opens the path itself)']),
         Ob('xml_index_one_entry_per_table_and_frame_type', 'ch', 'reference-encoded RP66V1 files: 1..2 logical files, 1..2 frame types with 1..6 frame records in 5 interleavings, float X '
            '(regular / irregular / 0.1 n), optional producer-private table (record type 128), one visible record per logical record or shared; index written with private on/off',
            ['RP66V1.IndexXML.write_logical_file_sequence_to_xml', 'write_logical_file_to_xml', 'log_pass_to_XML', 'frame_array_to_XML', 'frame_channel_to_XML', 'xml_rle_write',
